@@ -74,7 +74,7 @@ add("C10", "exploration",
     TTH_NOTE, "whole-domain sweeps + bounded-exhaustive hostile-frame enumeration against an independent reference decoder", "E6", "5/C10")
 
 add("C07", "exploration",
-    "The hash function is owned by the harness (overlay knob), so collision chains are enumerated, not sampled: all key sets of size 0..3 (thorough 0..4) over an 11-key alphabet x every key->slot assignment x 3 realisations of a slot as a 64-bit hash, every alphabet string probed with absent probes hashed into every slot (occupied run, last run, empty slot); value kinds int / pointer-free struct / Str2Str; all sequences of <= 3 loads on one instance (map, slices, failing load) incl. never-loaded instances (constructed, and the zero Str2Str incl. whole histories starting from it) and first loads through the New*FromSlice/New*FromMap constructors, compared with a Go map after every step; every query (Get, Len, Item, String) must leave the private state bit-identical when the map type holds no synchronisation primitive; every table size 0..300 and around each row of the prime table under 4 formula hashes.",
+    "The hash function is owned by the harness (overlay knob), so collision chains are enumerated, not sampled: all key sets of size 0..4 over an 11-key alphabet x every key->slot assignment over the slot alphabet (quick: first, second and last slot; thorough: every slot) x 3 realisations of a slot as a 64-bit hash, every alphabet string probed with absent probes hashed into every slot (occupied run, last run, empty slot); value kinds int / pointer-free struct / Str2Str; all sequences of <= 3 loads on one instance (map, slices, failing load) incl. never-loaded instances (constructed, and the zero Str2Str incl. whole histories starting from it) and first loads through the New*FromSlice/New*FromMap constructors, compared with a Go map after every step; every query (Get, Len, Item, String) must leave the private state bit-identical when the map type holds no synchronisation primitive; every table size 0..300 and around each row of the prime table under 4 formula hashes.",
     COMMON_NOTE + "Reference: Go map. The hash knob preserves the API and the uint32 truncation the code applies; Go map iteration order inside LoadFromMap is not owned (such cases are re-executed up to 8 times by the replay gate).",
     "small-scope exhaustive enumeration of key sets x hash assignments x load histories against a Go map, with the hash function as a controlled environment", "E6+E4", "5/C07")
 
